@@ -252,8 +252,16 @@ def concrete_family_replay(m, label, mode, N, tolf):
     st._current["iter"] = 3
     cnt = {"z": 0, "e": 0, "v": 0}
 
+    ztable = {}
+
     def compute_logw_and_logz(beta_final=1.0, normalize=True):
-        zv = Zs[cnt["z"]] if cnt["z"] < len(Zs) else 1.0
+        if beta_final in ztable:
+            zv = ztable[beta_final]  # memoised family: the same temperature gives the same evidence
+        else:
+            zv = Zs[cnt["z"]] if cnt["z"] < len(Zs) else 1.0 + 0.37 * (len(ztable) + 1)
+            if zv in ztable.values():
+                zv = zv * (1.0 + 0.01 * (len(ztable) + 1))  # keep evidences at distinct temperatures distinguishable
+            ztable[beta_final] = zv
         cnt["z"] += 1
         return sarr([FamVal("logw", beta_final, s_, N) for s_ in range(N)]), math.log(zv)
 
@@ -304,12 +312,13 @@ def concrete_family_replay(m, label, mode, N, tolf):
     elif label == "recorded-ess-is-at-recorded-beta":
         bad = E_at is None or ess != E_at
     elif label == "recorded-logz-is-at-recorded-beta":
-        bad = True  # evidence queries are answered positionally; trust the symbolic verdict only if the others fail
-        bad = False
+        lz = st._current["logz"]
+        bad = beta not in ztable or not math.isclose(float(lz), math.log(ztable[beta]), rel_tol=1e-12, abs_tol=1e-12)
     elif label == "returned-weights-are-normalised-pool-weights":
         bad = not all(isinstance(x, FamVal) and x.kind == "norm" for x in ws)
     return {"reproduced": bool(bad), "signature": f"Reweighter.run:{label}:{mode}",
             "payload": {"beta_prev": beta_prev, "target": target, "ess_table": {str(k): v for k, v in table.items()},
+                        "evidence_table": {str(k): v for k, v in ztable.items()}, "recorded_logz": float(st._current["logz"]) if not isinstance(st._current["logz"], LogVal) else None,
                         "beta": beta, "ess": ess, "weights_computed_at": wbetas},
             "what": f"Reweighter.run from beta_prev={beta_prev} with ESS target {target} on a scripted pool with ESS(beta) table "
                     f"{ {k: v for k, v in table.items()} }: recorded beta={beta}, ess={ess}, weights computed at {wbetas} ({label})"}
